@@ -8,8 +8,9 @@ checks = [prop]
 if '--checks' in sys.argv:
     checks = sys.argv[sys.argv.index('--checks') + 1].split(',')
 tier = sys.argv[sys.argv.index('--tier') + 1] if '--tier' in sys.argv else 'quick'
-WT = '/var/tmp/seedcheck'
-TGT = '/var/tmp/seedcheck-target'
+SFX = os.environ.get('SEED_SFX', '')  # distinct suffixes allow confirmations of different properties to run side by side
+WT = '/var/tmp/seedcheck' + SFX
+TGT = '/var/tmp/seedcheck-target' + SFX
 env = dict(os.environ, CARGO_TARGET_DIR=TGT, CARGO_NET_OFFLINE='true')
 def sh(cmd, cwd=WT, check=False):
     r = subprocess.run(cmd, shell=True, cwd=cwd, env=env, stdout=subprocess.PIPE, stderr=subprocess.STDOUT, text=True)
